@@ -109,14 +109,14 @@ func (w *World) expectedAllowance(ctx sdk.Context) math.Int {
 // monC08 judges every slash packet the provider receives (C08), the slash meter (C09, provider half)
 // and the acknowledgement round trip.
 type monC08 struct {
-	w      *World
-	begin  *punishSnap // at PostBegin
-	preEnd *punishSnap // after all txs
+	w       *World
+	begin   *punishSnap // at PostBegin
+	preEnd  *punishSnap // after all txs
 	prevEnd *punishSnap // PostEnd of the previous block
 	// pendingAcks[consumer] = consumer addresses (bech32) the provider owes an acknowledgement for
 	pendingAcks map[string][]string
 	// meter log for the window bound
-	log []meterObs
+	log           []meterObs
 	lastReplenish time.Time
 	haveReplenish bool
 	validated     map[string]bool
@@ -132,7 +132,9 @@ type meterObs struct {
 }
 
 func init() {
-	registerMonitor(func(w *World) Monitor { return &monC08{w: w, pendingAcks: map[string][]string{}, validated: map[string]bool{}} })
+	registerMonitor(func(w *World) Monitor {
+		return &monC08{w: w, pendingAcks: map[string][]string{}, validated: map[string]bool{}}
+	})
 }
 
 func (m *monC08) Name() string { return "C08/C09p" }
